@@ -29,4 +29,7 @@ def run(rep, tier, seed):
             "stretch_per_row": 2 if tier == "quick" else 6}
     tot = semreplay.replay(rep, rows, opts)
     report(rep, tot, "C02")
+    deep = semreplay.build_deep_rows(rep, 2 if tier == "quick" else 3)
+    tot2 = semreplay.replay(rep, deep, {**opts, "spellings": 1, "stretch": False})
+    report(rep, tot2, "C02")
     rep.cov["exhaustive"] = True
